@@ -362,10 +362,10 @@ def wrappers(ctx, r, F):
     got = n(ps[0].ret) if len(ps) == 1 else None
     m = match(("call", "hash::public::FuzzyHashType::compare_with_config", (V("a"), V("b"), ("agg", V("k"), ()))), got) if got else None
     ok = bool(m) and m["k"].endswith("ComparisonConfiguration::Default") and \
-        {repr(m["a"]), repr(m["b"])} == {repr(("ref", ("deref", P(1)))), repr(("ref", ("deref", P(2))))}
+        {repr(m["a"]), repr(m["b"])} == {repr(P(1)), repr(P(2))}
     if m and not ok:
         # `&*self` may appear as the plain parameter
-        ok = m["k"].endswith("ComparisonConfiguration::Default") and {repr(m["a"]), repr(m["b"])} <= {repr(P(1)), repr(P(2)), repr(("ref", ("deref", P(1)))), repr(("ref", ("deref", P(2))))}
+        ok = m["k"].endswith("ComparisonConfiguration::Default") and {repr(m["a"]), repr(m["b"])} <= {repr(P(1)), repr(P(2)), repr(P(1)), repr(P(2))}
     ctx.ob(r, ("FuzzyHashType::compare", "default-mode"), ok,
            "FuzzyHashType::compare is %s; reference compare_with_config(self, other, Default)" % (sym.fmt(got) if got else got), cfg=F.key, where=b.where())
 
